@@ -27,7 +27,12 @@ DEFAULT_MIX = dict(
 )
 
 
-def ladder_for(market):
+DYADIC_TICKS = [p for p in TICKS if (p * 8) == int(p * 8) and p <= 12]
+
+
+def ladder_for(market, dyadic=False):
+    if dyadic and not market.get("line"):
+        return DYADIC_TICKS
     if market.get("line"):
         lo, hi, step = market["line"]
         n = int(round((hi - lo) / step))
@@ -81,7 +86,7 @@ def pick_price(rng, ladder, book, side, where):
 
 
 def gen_place(rng, market, upd, mix, n_trades):
-    ladder = ladder_for(market)
+    ladder = ladder_for(market, mix.get("dyadic"))
     sels = [s for s in market["runners"]]
     act = [s for s in sels if upd["r"][str(s)]["st"] == "ACTIVE"] or sels
     sel = rng.choice(act if rng.random() < 0.93 else sels)
@@ -159,7 +164,7 @@ def gen_other(rng, market, upd, mix, kind, n_created):
     elif kind == "update":
         a["pt"] = rng.choice(["PERSIST", "LAPSE", "MARKET_ON_CLOSE"])
     elif kind == "replace":
-        ladder = ladder_for(market)
+        ladder = ladder_for(market, mix.get("dyadic"))
         sel = rng.choice(market["runners"])
         book = upd["r"][str(sel)]
         a["price"] = pick_price(rng, ladder, book, rng.choice(["BACK", "LAY"]), rng.choice(mix["where"]))
